@@ -74,7 +74,7 @@ ID_PLUMBING = [
     (r"^<internal::ids::(\w+) as std::convert::From<\w+>>::from$", r"^(\1\()?index\)?$", None),
     (r"^<internal::ids::(\w+) as std::ops::Add<\w+>>::add$", r"^(\1\()?\(self(\.0)? \+ rhs\)\)?$", None),
     (r"^<internal::ids::(\w+) as std::ops::AddAssign<\w+>>::add_assign$", r"^\('unit',\)$", r"^(\w+\()?\(self(\.0)? \+ rhs\)\)?$"),
-    (r"^internal::ids::<impl std::ops::Index(?:Mut)?<internal::ids::(\w+)> for (?:\[T\]|std::vec::Vec<T>)>::index(?:_mut)?$", r"^self\.\(?index(\.0)?( as usize)?\)?$", None),
+    (r"^internal::ids::<impl std::ops::Index(?:Mut)?<internal::ids::(\w+)> for (?:\[T\]|std::vec::Vec<T>)>::index(?:_mut)?$", r"^(self|Vec::as_(mut_)?slice\(self\)|slice::as_(mut_)?slice\(self\))\.\(?index(\.0)?( as usize)?\)?$", None),
 ]
 
 
